@@ -4,6 +4,7 @@ import (
 	"fmt"
 	"go/ast"
 	"go/token"
+	"go/types"
 	"sort"
 	"strings"
 )
@@ -119,20 +120,31 @@ func walkAdjust(c *Ctx, m *vmModel) (target map[string]int64, fall map[string]in
 	p := c.MustPkg("compile")
 	info := p.TypesInfo
 	target, fall = map[string]int64{}, map[string]int64{}
-	var visitIf func(x *ast.IfStmt)
 	found := false
-	visitIf = func(x *ast.IfStmt) {
-		// collect opcodes compared in the condition
-		var ops []string
-		ast.Inspect(x.Cond, func(n ast.Node) bool {
-			if b, ok := n.(*ast.BinaryExpr); ok && b.Op == token.EQL {
-				if name, ok := m.opcodeOf(info, b.Y); ok {
-					ops = append(ops, name)
+	// roles: the depth parameter, and the local that starts as a copy of it (the depth at the jump target)
+	var depthObj, targetObj types.Object
+	if fd.Type.Params != nil {
+		for _, f := range fd.Type.Params.List {
+			for _, nm := range f.Names {
+				if nm.Name == "depth" {
+					depthObj = info.Defs[nm]
 				}
 			}
-			return true
-		})
-		for _, s := range x.Body.List {
+		}
+	}
+	ast.Inspect(fd.Body, func(n ast.Node) bool {
+		if as, ok := n.(*ast.AssignStmt); ok && as.Tok == token.DEFINE && len(as.Lhs) == 1 && len(as.Rhs) == 1 && targetObj == nil {
+			if rid := identOf(as.Rhs[0]); rid != nil && depthObj != nil && info.Uses[rid] == depthObj {
+				if lid := identOf(as.Lhs[0]); lid != nil {
+					targetObj = info.Defs[lid]
+				}
+			}
+		}
+		return true
+	})
+	// one arm of the opcode decision: the opcodes it is taken for and its statements
+	arm := func(ops []string, body []ast.Stmt) {
+		for _, s := range body {
 			as, ok := s.(*ast.AssignStmt)
 			if !ok || len(as.Lhs) != 1 || len(as.Rhs) != 1 {
 				continue
@@ -144,33 +156,74 @@ func walkAdjust(c *Ctx, m *vmModel) (target map[string]int64, fall map[string]in
 			}
 			base := identOf(be.X)
 			k, isK := constInt(info, be.Y)
-			if base == nil || base.Name != "depth" || !isK {
+			if base == nil || depthObj == nil || info.Uses[base] != depthObj || !isK {
 				continue
 			}
 			if be.Op == token.SUB {
 				k = -k
 			}
+			lobj := info.Uses[lhs]
 			for _, op := range ops {
-				switch lhs.Name {
-				case "target_depth":
+				switch {
+				case lobj != nil && lobj == targetObj:
 					target[op] = k
 					found = true
-				case "depth":
+				case lobj != nil && lobj == depthObj:
 					fall[op] = k
 					found = true
 				}
 			}
 		}
+	}
+	var visitIf func(x *ast.IfStmt)
+	visitIf = func(x *ast.IfStmt) {
+		var ops []string
+		ast.Inspect(x.Cond, func(n ast.Node) bool {
+			if b, ok := n.(*ast.BinaryExpr); ok && b.Op == token.EQL {
+				if name, ok := m.opcodeOf(info, b.Y); ok {
+					ops = append(ops, name)
+				}
+			}
+			return true
+		})
+		arm(ops, x.Body.List)
 		if e, ok := x.Else.(*ast.IfStmt); ok {
 			visitIf(e)
 		}
 	}
 	ast.Inspect(fd.Body, func(n ast.Node) bool {
-		if x, ok := n.(*ast.IfStmt); ok {
-			// only chains that test `opcode ==`
-			if strings.Contains(exprStr(x.Cond), "opcode ==") {
+		switch x := n.(type) {
+		case *ast.IfStmt:
+			// chains that compare the opcode with opcode constants
+			isOp := false
+			ast.Inspect(x.Cond, func(m2 ast.Node) bool {
+				if b, ok := m2.(*ast.BinaryExpr); ok && b.Op == token.EQL {
+					if _, ok := m.opcodeOf(info, b.Y); ok {
+						isOp = true
+					}
+				}
+				return true
+			})
+			if isOp {
 				visitIf(x)
 				return false
+			}
+		case *ast.SwitchStmt:
+			// the same decision written as a switch over the opcode
+			if x.Tag == nil {
+				return true
+			}
+			for _, cl := range x.Body.List {
+				cc := cl.(*ast.CaseClause)
+				var ops []string
+				for _, e := range cc.List {
+					if name, ok := m.opcodeOf(info, e); ok {
+						ops = append(ops, name)
+					}
+				}
+				if len(ops) > 0 {
+					arm(ops, cc.Body)
+				}
 			}
 		}
 		return true
